@@ -90,8 +90,10 @@ def initLine (toks : List String) : Option DSt := do
     let (ls, rest) ← takeStrs n rest
     match rest with
     | [w, c] =>
+      let b : Buf := { lines := ls, widx := ← decNat w, cur := ← decNat c }
+      -- the harness puts a Vi session into navigation mode first: the cursor fix applies
       pure { vi := vi, ic := ic,
-             s := { buf := { lines := ls, widx := ← decNat w, cur := ← decNat c },
+             s := { buf := if vi then viFix b else b,
                     field := [], stext := [], sdir := .fwd, searching := false } }
     | _ => none
   | _ => none
